@@ -268,7 +268,30 @@ def run_date_days(chk, spec):
 		chk.fail("dates + days: element i is date_i plus the days", f"date-days/element-mismatch/{form}", f"{spec!r}: {short(got, 160)} vs {short(exp, 160)}: {d}")
 
 
-RUNNERS = {"arith": run_arith, "table_arith": run_table_arith, "method": run_method, "date_days": run_date_days, "recompute": recompute.runner("C05")}
+def run_helper(chk, spec):
+	"""serif-specific broadcast helpers whose meaning is documented per element: before/after/before_last/after_last (str), eomonth (date)"""
+	import calendar
+	name, vals, sep = spec["name"], spec["values"], spec.get("sep")
+	ref = {
+		"before": lambda x: x.partition(sep)[0], "after": lambda x: x.partition(sep)[2], "before_last": lambda x: x.rpartition(sep)[0], "after_last": lambda x: x.rpartition(sep)[2],
+		"eomonth": lambda x: x.replace(day=calendar.monthrange(x.year, x.month)[1]),
+	}[name]
+	exp = [None if x is None else ref(x) for x in vals]
+	v = Vector(list(vals))
+	o = call(lambda: getattr(v, name)(sep) if sep is not None else getattr(v, name)())
+	chk.judged("method", ("helper", name, len(vals) if len(vals) < 4 else 40, none_sig(vals)))
+	if not o.ok:
+		chk.fail("broadcast method equals the method applied per element", f"method/raises/helper.{name}/{type(o.exc).__name__}", f"Vector({short(vals, 120)}).{name}({sep!r}) raised {o!r}")
+		return
+	chk.observe(o.value, "method")
+	got = list(o.value._underlying)
+	d = M.first_diff(got, exp)
+	if d:
+		chk.fail("element i of the result is the method applied to element i, None staying None", f"method/element-mismatch/helper.{name}",
+			f"Vector({short(vals, 120)}).{name}({sep!r}): serif {short(got, 160)} vs documented {short(exp, 160)}: {d}")
+
+
+RUNNERS = {"helper": run_helper, "arith": run_arith, "table_arith": run_table_arith, "method": run_method, "date_days": run_date_days, "recompute": recompute.runner("C05")}
 
 PAIRS = [("int", "int"), ("int", "float"), ("float", "int"), ("bool", "int"), ("int", "complex"), ("float", "float"), ("str", "str"),
 	("str", "int"), ("date", "timedelta"), ("datetime", "timedelta"), ("timedelta", "timedelta"), ("timedelta", "int"), ("list", "list"),
@@ -369,6 +392,19 @@ def run(chk):
 						if size == 1:
 							continue
 					chk.case("method", {"kind": kname, "name": name, "args": args, "values": vals}, "method-" + kname)
+	for name in ("before", "after", "before_last", "after_last"):
+		for size in (1, 3, 40):
+			for sep in ("-", "ab", " "):
+				for npat in ("none", "first", "low"):
+					vals = common.apply_none(rng, [rng.choice(["a-b-c", "ab", "no sep", "-lead", "trail-", "", "abab"]) for _ in range(size)], npat)
+					if all(x is None for x in vals):
+						continue
+					chk.case("helper", {"name": name, "values": vals, "sep": sep}, "method-helper")
+	for size in (1, 3, 40):
+		for npat in ("none", "first", "low"):
+			vals = common.apply_none(rng, [rng.choice([date(2020, 2, 10), date(2021, 2, 1), date(2021, 12, 31), date(2020, 1, 31), date(1999, 4, 30)]) for _ in range(size)], npat)
+			if not all(x is None for x in vals):
+				chk.case("helper", {"name": "eomonth", "values": vals}, "method-helper")
 	# dates + days
 	for _ in range(120 if chk.quick() else 600):
 		n = rng.choice([1, 2, 3, 40])
